@@ -1,0 +1,73 @@
+//! Verification hooks (feature `verif-hooks`, off by default).
+//!
+//! Add-only instrumentation for out-of-tree checkers: a thread-local event
+//! recorder that the query pipeline feeds with the plans it actually executes,
+//! so a checker can observe the real orchestration (which IR is run for which
+//! rule head, in which order, with which recursion strategy and worker split)
+//! without re-implementing it. Nothing here changes engine behaviour.
+
+use crate::ir::IRNode;
+use std::cell::RefCell;
+
+/// Recursive evaluation strategy chosen by the code generator.
+#[derive(Debug, Clone)]
+pub enum Strategy {
+    /// Optimized binary transitive closure over `edge`.
+    TransitiveClosure { edge: String },
+    /// Optimized bound (magic-set seeded) transitive closure.
+    BoundTransitiveClosure {
+        edge: String,
+        magic: String,
+        bound_col: usize,
+    },
+    /// General DD iterative fixpoint.
+    General,
+}
+
+/// One step of what the pipeline actually did.
+#[derive(Debug, Clone)]
+pub enum Event {
+    /// A shared view (subplan sharing) is about to be executed.
+    SharedView { name: String, ir: IRNode },
+    /// A rule head is about to be executed with this IR.
+    Rule {
+        index: usize,
+        head: String,
+        recursive_rel: Option<String>,
+        num_workers: usize,
+        semiring: String,
+        ir: IRNode,
+    },
+    /// The recursive executor picked a strategy for `rel`.
+    RecursiveStrategy {
+        rel: String,
+        strategy: Strategy,
+        base: Vec<IRNode>,
+        recursive: Vec<IRNode>,
+    },
+    /// `execute_with_config` decided to hash-partition the inputs.
+    Partitioned { num_workers: usize },
+}
+
+thread_local! {
+    static EVENTS: RefCell<Option<Vec<Event>>> = const { RefCell::new(None) };
+}
+
+/// Start recording on this thread (clears any previous recording).
+pub fn start_recording() {
+    EVENTS.with(|e| *e.borrow_mut() = Some(Vec::new()));
+}
+
+/// Stop recording and return what was recorded.
+pub fn take_recording() -> Vec<Event> {
+    EVENTS.with(|e| e.borrow_mut().take().unwrap_or_default())
+}
+
+/// Record an event if recording is active on this thread.
+pub fn record(event: Event) {
+    EVENTS.with(|e| {
+        if let Some(v) = e.borrow_mut().as_mut() {
+            v.push(event);
+        }
+    });
+}
